@@ -164,7 +164,7 @@ fn run_workload(prelude: &[Op], workload: &[Op], start_idx: Idx, backend: Backen
             if exp.in_flight.is_some() {
                 t.in_flight_states += 1;
             }
-            let ctx = json!({"workload": workload, "bulk_prelude": !prelude.is_empty(), "start_idx": start_idx, "backend": backend, "crash_after_mutation": k,
+            let ctx = json!({"workload": workload, "prelude": prelude, "start_idx": start_idx, "backend": backend, "crash_after_mutation": k,
                              "last_mutation": if k > 0 { rec.journal[k-1].mutation.label() } else { "none".into() },
                              "in_flight": exp.in_flight});
             check_crash_state(&content, &exp, backend, false, shared, &mut t, &ctx).await;
@@ -180,7 +180,7 @@ fn run_workload(prelude: &[Op], workload: &[Op], start_idx: Idx, backend: Backen
                 let frec = crash::record_with_prelude(prelude, workload, start_idx, backend, Some(i)).await;
                 t.fault_runs += 1;
                 let exp = crash::expectation_after_fault(&frec, frec.prelude_attempts + i);
-                let ctx = json!({"workload": workload, "bulk_prelude": !prelude.is_empty(), "start_idx": start_idx, "backend": backend, "ambiguous_failure_at_mutation": i,
+                let ctx = json!({"workload": workload, "prelude": prelude, "start_idx": start_idx, "backend": backend, "ambiguous_failure_at_mutation": i,
                                  "outcomes": frec.ops.iter().map(|r| r.out.short()).collect::<Vec<_>>()});
                 check_crash_state(&frec.final_content, &exp, backend, false, shared, &mut t, &ctx).await;
             }
@@ -195,7 +195,7 @@ fn replay(run: &mut Run, ctx: &serde_json::Value, property: &str) {
     let backend: Backend = serde_json::from_value(ctx["backend"].clone()).expect("backend");
     let shared = Shared { seen: Mutex::new(HashSet::new()) };
     let mut t = Tally::default();
-    let prelude = if ctx.get("bulk_prelude").and_then(|v| v.as_bool()).unwrap_or(false) { bulk_prelude() } else { vec![] };
+    let prelude: Vec<Op> = ctx.get("prelude").and_then(|v| serde_json::from_value(v.clone()).ok()).unwrap_or_default();
     util::block_on(async {
         if let Some(i) = ctx.get("ambiguous_failure_at_mutation").and_then(|v| v.as_u64()) {
             let frec = crash::record_with_prelude(&prelude, &workload, start_idx, backend, Some(i)).await;
@@ -342,11 +342,31 @@ fn main() {
             }
         }
     }
-    // ---- bulk start state: 64 flushed documents, so that ids cross the allocation-watermark stride
-    if !c04 && run.violation_count() == 0 && Instant::now() < deadline {
-        let prelude = bulk_prelude();
-        let bulk_ops = vec![Op::Add(0), Op::Add(1), Op::Flush, Op::Update(65, 0), Op::Remove(65), Op::Remove(1), Op::Update(1, 0), Op::Reopen];
-        let max_d = run.tier.pick(1, 3);
+    // ---- other start states (the prelude is acknowledged history, its crash points are not enumerated):
+    //  "flushed2": two flushed documents holding the contested values, so that release + re-acquire
+    //              of a checkpointed unique value needs only two more operations;
+    //  "bulk64":   64 flushed documents, so that ids cross the allocation-watermark stride.
+    let mut start_states: Vec<(&str, Vec<Op>, Vec<Op>, usize)> = Vec::new();
+    {
+        let f2_ops: Vec<Op> = if c04 {
+            vec![Op::Remove(1), Op::Add(2), Op::Update(1, 1), Op::Update(2, 6), Op::Update(1, 13), Op::Add(4), Op::Update(2, 12), Op::Flush, Op::Update(1, 0)]
+        } else {
+            vec![Op::Remove(1), Op::Add(2), Op::Update(1, 0), Op::Update(2, 8), Op::Flush, Op::Remove(2), Op::Add(3), Op::Update(1, 5)]
+        };
+        start_states.push(("flushed2", vec![Op::Add(0), Op::Add(1), Op::Flush], f2_ops, run.tier.pick(2, 3)));
+        if !c04 {
+            start_states.push((
+                "bulk64",
+                bulk_prelude(),
+                vec![Op::Add(0), Op::Add(1), Op::Flush, Op::Update(65, 0), Op::Remove(65), Op::Remove(1), Op::Update(1, 0), Op::Reopen],
+                run.tier.pick(1, 3),
+            ));
+        }
+    }
+    for (sname, prelude, bulk_ops, max_d) in start_states {
+        if run.violation_count() > 0 || Instant::now() >= deadline {
+            break;
+        }
         for depth in 1..=max_d {
             let total = (bulk_ops.len() as u64).pow(depth as u32);
             let mut items: Vec<Vec<Op>> = Vec::new();
@@ -383,10 +403,10 @@ fn main() {
                 }
             }
             if finished < total {
-                run.cap_hit(&format!("time budget inside the bulk-start pass at depth {depth}: {finished}/{total} workloads"));
+                run.cap_hit(&format!("time budget inside the start-state pass {sname} at depth {depth}: {finished}/{total} workloads"));
                 break;
             }
-            completed.push(format!("bulk-start(64 flushed docs):depth{depth}:alphabet{}", bulk_ops.len()));
+            completed.push(format!("start-state {sname}:depth{depth}:alphabet{}", bulk_ops.len()));
         }
     }
     let distinct = shared.seen.lock().len() as u64;
